@@ -22,7 +22,7 @@ func init() {
 		Technique: "goroutine-affinity reachability on a package-local call graph (static calls, interface calls resolved by method sets, bound-method and argument closures; go statements and timer callbacks as roots), explicit-panic census with guard classification, invariant-establishing store/call census, guard presence obligations for RFC 7540 stream rules on go/ssa",
 		Meta: core.Meta{
 			Level:       "other",
-			Explanation: "Decides, for package bfe_http2: (A) goroutine affinity: no function that asserts serveG.Check() is reachable from a non-serve goroutine root (go statements, timer callbacks, the handler-facing API of responseWriter/RequestBody/chunkWriter and the exported timeout/close functions) and no function that asserts serveG.CheckNotOn() is reachable from serverConn.serve without crossing a go statement; every serve-owned field of serverConn and stream is accessed only by functions outside the non-serve-reachable set. (B) explicit-panic census of server.go, flow.go, writesched.go, write.go: every panic site must match a reviewed entry (function + guarding condition); for the state-invariant panics the establishing code is checked: closeStream is called only with a stream taken from sc.streams (lookup, range, serverConn.state) or under a state test, sc.streams is inserted only in processHeaders and deleted only in closeStream together with state=closed, stream.state has only the reviewed writers, every stream registered open gets its body pipe before processHeaders returns success (pipe assigned only under !END_STREAM, and conversely every path of newWriterAndRequest that established !END_STREAM reaches a successful return only through a non-nil pipe assignment, whatever the request's attributes such as content-length), sc.curOpenStreams moves in lockstep with sc.streams on every path of every function (an inserted stream is counted before any return, including error returns that the caller answers with resetStream -> closeStream; delete and decrement always come together), stream.endStream (which dereferences the body pipe) is called only for streams known to be open, startFrameWrite is called only from scheduleFrameWrite under !writingFrame and at most once per pass, done channels are buffered, END_STREAM-carrying writers always name their stream, reset flags are set before closeStream, maxFrameSize is never stored as zero, every flow.take is guarded by available(), window-update amounts are positive; a send window may be negative (RFC 7540 6.9.2), so every signed value that flows from flow.available() through conversions and clamp phis into a slice bound or make size is known non-negative where it is used: by a sign test controlling the site, or, when the window is that of the head frame of a *writeQueue parameter (writeScheduler.takeFrom), at every call site of that function, where the queue passed must have passed `F(q) > 0` for a function F whose every result is provably <= available() of the same head frame (min-clamps, checked) - directly or as an element of a slice field that is filled only under such a test - or must be under a no-payload predicate (true only if the head frame is not DATA or has len(p) == 0, checked, head() == s[0] checked) while the site is reached only for DATA with payload. (C) presence and placement of RFC 7540 rules: odd stream id, strictly increasing id (both dominating stream creation), the advertised concurrency limit (advMaxStreams is what SETTINGS announces and what curOpenStreams is compared with before the handler starts; curOpenStreams changes only in processHeaders/closeStream), trailers must carry END_STREAM, no duplicate trailers, no pseudo-headers in trailers, DATA is accepted only for a registered stream in state open without trailers, request pseudo-header validation in newWriterAndRequest, connection-specific request headers (connHeaders ⊇ RFC 7540 8.1.2.2, TE) routed to the 400 handler, pseudo-header validation before a MetaHeadersFrame is delivered. Not covered: arbitrary frame sequences and schedules (only the per-function necessary conditions above), implicit run-time panics (nil dereference, index, type assertion) other than the body-pipe dereference of endStream and the window-derived slice bounds, a window that changes between the scheduler's filter pass and the take within one scheduling decision (both run on the serve goroutine without an intervening frame), panics inside handlers, frame parsing (C32), flow-control arithmetic (C33).",
+			Explanation: "Decides, for package bfe_http2: (A) goroutine affinity: no function that asserts serveG.Check() is reachable from a non-serve goroutine root (go statements, timer callbacks, the handler-facing API of responseWriter/RequestBody/chunkWriter and the exported timeout/close functions) and no function that asserts serveG.CheckNotOn() is reachable from serverConn.serve without crossing a go statement; every serve-owned field of serverConn and stream is accessed only by functions outside the non-serve-reachable set. (B) explicit-panic census of server.go, flow.go, writesched.go, write.go: every panic site must match a reviewed entry (function + guarding condition); for the state-invariant panics the establishing code is checked: closeStream is called only with a stream taken from sc.streams (lookup, range, serverConn.state) or under a state test, sc.streams is inserted only in processHeaders and deleted only in closeStream together with state=closed, stream.state has only the reviewed writers, every stream registered open gets its body pipe before processHeaders returns success (pipe assigned only under !END_STREAM, and conversely every path of newWriterAndRequest that established !END_STREAM reaches a successful return only through a non-nil pipe assignment, whatever the request's attributes such as content-length), sc.curOpenStreams moves in lockstep with sc.streams on every path of every function (an inserted stream is counted before any return, including error returns that the caller answers with resetStream -> closeStream; delete and decrement always come together), stream.endStream (which dereferences the body pipe) is called only for streams known to be open, startFrameWrite is called only from scheduleFrameWrite under !writingFrame and at most once per pass, done channels are buffered, END_STREAM-carrying writers always name their stream, reset flags are set before closeStream, maxFrameSize is never stored as zero, every flow.take is guarded by available(), window-update amounts are positive; a send window may be negative (RFC 7540 6.9.2), so every signed value that flows from flow.available() through conversions and clamp phis into a slice bound or make size is known non-negative where it is used: by a sign test controlling the site, or, when the window is that of the head frame of a *writeQueue parameter (writeScheduler.takeFrom), at every call site of that function, where the queue passed must have passed `F(q) > 0` for a function F whose every result is provably <= available() of the same head frame (min-clamps, checked) - directly or as an element of a slice field that is filled only under such a test - or must be under a no-payload predicate (true only if the head frame is not DATA or has len(p) == 0, checked, head() == s[0] checked) while the site is reached only for DATA with payload. (C) presence and placement of RFC 7540 rules: odd stream id, strictly increasing id (both dominating stream creation), the advertised concurrency limit (advMaxStreams is what SETTINGS announces and what curOpenStreams is compared with before the handler starts; curOpenStreams changes only in processHeaders/closeStream), trailers must carry END_STREAM, no duplicate trailers, no pseudo-headers in trailers, DATA is accepted only for a registered stream in state open without trailers, request pseudo-header validation in newWriterAndRequest, connection-specific request headers (connHeaders ⊇ RFC 7540 8.1.2.2, TE) routed to the 400 handler, pseudo-header validation before a MetaHeadersFrame is delivered. Robustness: every anchor function is analysed together with its private helpers (unexported functions of bfe_http2 that are never used as values and whose every call site lies in the anchor or another such helper, depth <= 4): stores, calls and loops found there count as the anchor's; values are followed across the call boundary (a helper's parameter is the argument at its single call site, the result of a helper call is the one value the helper returns); guards hold inside a single-call-site helper when they hold at its call site; branch facts are read through negations, mirrored comparisons, named booleans, short-circuit phis (the fact must follow on every edge that can yield the value, edges contradicting other known guards excluded) and boolean helper functions (the fact must follow at every return that can yield the value); dominance, must-pass and reachability are decided on the call-stack-sensitive supergraph of the region (calls of helpers entered, constant boolean results matched with the branch on them in the caller). Not followed: helpers that are used as function values or invoked through an interface, helpers called through defer or go, values passed through struct fields or closures' free variables into a helper, helpers with more than one call site for parameter identity (their code is still attributed to the anchor when all call sites lie in the region). Not covered: arbitrary frame sequences and schedules (only the per-function necessary conditions above), implicit run-time panics (nil dereference, index, type assertion) other than the body-pipe dereference of endStream and the window-derived slice bounds, a window that changes between the scheduler's filter pass and the take within one scheduling decision (both run on the serve goroutine without an intervening frame), panics inside handlers, frame parsing (C32), flow-control arithmetic (C33).",
 			RuleText:    "obligations = each function asserting goroutine affinity, each serve-owned field, each explicit panic site, each call/store that establishes a panic's invariant, each branch on END_STREAM in newWriterAndRequest, each insertion/removal/count step of the open-stream bookkeeping, each RFC rule (guard + placement), each slice/make bound derived from flow.available() and each call site of a function that delegates its sign",
 			Assumptions: []string{"the handler-facing API is the method sets of responseWriter, RequestBody and chunkWriter plus the exported functions taking a *RequestBody / io.ReadCloser", "callbacks passed to time.AfterFunc run on their own goroutine; the function passed to Pipe.CloseWithErrorAndCode runs in the body reader's goroutine"},
 		},
@@ -65,6 +65,11 @@ var c35Mutants = []Mutant{
 	{Name: "silent-odd-test-rewritten", File: "bfe_http2/server.go", Old: "	if id%2 != 1 {\n", New: "	if id%2 == 0 {\n", Silent: true},
 	{Name: "silent-limit-in-local", File: "bfe_http2/server.go", Old: "	if sc.curOpenStreams > sc.advMaxStreams {\n", New: "	limit := sc.advMaxStreams\n	if sc.curOpenStreams > limit {\n", Silent: true},
 	{Name: "silent-close-order", File: "bfe_http2/server.go", Old: "	st.cw.Close() // signals Handler's CloseNotifier, unblocks writes, etc\n	sc.writeSched.forgetStream(st.id)\n", New: "	sc.writeSched.forgetStream(st.id)\n	st.cw.Close() // signals Handler's CloseNotifier, unblocks writes, etc\n", Silent: true},
+	{Name: "silent-close-bookkeeping-in-helper", File: "bfe_http2/server.go", Old: "\tst.state = stateClosed\n\tsc.curOpenStreams--\n\tif sc.curOpenStreams == 0 {\n\t\t// no request processing on the conn, set read client again timeout\n\t\tsc.setReadClientAgainTimeout()\n\t\tsc.setConnState(http.StateIdle)\n\t}\n\tdelete(sc.streams, st.id)\n\tif p := st.body; p != nil {\n\t\tp.CloseWithError(err)\n\t\tif st.defaultStreamWindow() {\n\t\t\tp.Release(&fixBufferPool)\n\t\t}\n\t}\n\tst.cw.Close() // signals Handler's CloseNotifier, unblocks writes, etc\n\tsc.writeSched.forgetStream(st.id)\n\tif st.reqBuf != nil {\n\t\t// Stash this request body buffer (64k) away for reuse\n\t\t// by a future POST/PUT/etc.\n\t\t//\n\t\t// TODO(bradfitz): share on the server? sync.Pool?\n\t\t// Server requires locks and might hurt contention.\n\t\t// sync.Pool might work, or might be worse, depending\n\t\t// on goroutine CPU migrations. (get and put on\n\t\t// separate CPUs).  Maybe a mix of strategies. But\n\t\t// this is an easy win for now.\n\t\tsc.freeRequestBodyBuf = st.reqBuf\n\t}\n}\n", New: "\tsc.unregisterOpenStream(st)\n\tif p := st.body; p != nil {\n\t\tp.CloseWithError(err)\n\t\tif st.defaultStreamWindow() {\n\t\t\tp.Release(&fixBufferPool)\n\t\t}\n\t}\n\tst.cw.Close() // signals Handler's CloseNotifier, unblocks writes, etc\n\tsc.writeSched.forgetStream(st.id)\n\tif st.reqBuf != nil {\n\t\t// Stash this request body buffer (64k) away for reuse\n\t\t// by a future POST/PUT/etc.\n\t\t//\n\t\t// TODO(bradfitz): share on the server? sync.Pool?\n\t\t// Server requires locks and might hurt contention.\n\t\t// sync.Pool might work, or might be worse, depending\n\t\t// on goroutine CPU migrations. (get and put on\n\t\t// separate CPUs).  Maybe a mix of strategies. But\n\t\t// this is an easy win for now.\n\t\tsc.freeRequestBodyBuf = st.reqBuf\n\t}\n}\n\nfunc (sc *serverConn) unregisterOpenStream(st *stream) {\n\tst.state = stateClosed\n\tsc.curOpenStreams--\n\tif sc.curOpenStreams == 0 {\n\t\t// no request processing on the conn, set read client again timeout\n\t\tsc.setReadClientAgainTimeout()\n\t\tsc.setConnState(http.StateIdle)\n\t}\n\tdelete(sc.streams, st.id)\n}\n", Silent: true},
+	{Name: "silent-reset-early-return", File: "bfe_http2/server.go", Old: "\tif st != nil {\n\t\tst.gotReset = true\n\t\tsc.closeStream(st, StreamError{f.StreamID, f.ErrCode, \"stream reset by peer\"})\n\t}\n\treturn nil\n", New: "\tif st == nil {\n\t\treturn nil\n\t}\n\tst.gotReset = true\n\tsc.closeStream(st, StreamError{f.StreamID, f.ErrCode, \"stream reset by peer\"})\n\treturn nil\n", Silent: true},
+	{Name: "silent-data-reject-named-booleans", File: "bfe_http2/server.go", Old: "\tif !ok || st.state != stateOpen || st.gotTrailerHeader {\n", New: "\tstreamOpen := ok && st.state == stateOpen\n\tsawTrailers := ok && st.gotTrailerHeader\n\tif !streamOpen || sawTrailers {\n\t\tlog.Logger.Debug(\"http2: rejecting DATA on stream %d (known=%v open=%v trailers=%v)\", id, ok, streamOpen, sawTrailers)\n", Silent: true},
+	{Name: "silent-close-state-read-once", File: "bfe_http2/server.go", Old: "\tif st.state == stateIdle || st.state == stateClosed {\n\t\tpanic(fmt.Sprintf(\"invariant; can't close stream in state %v\", st.state))\n\t}\n", New: "\tprevState := st.state\n\tif prevState == stateIdle || prevState == stateClosed {\n\t\tpanic(fmt.Sprintf(\"invariant; can't close stream in state %v\", prevState))\n\t}\n", Silent: true},
+	{Name: "silent-trailers-defensive-state-check", File: "bfe_http2/server.go", Old: "\tif st.gotTrailerHeader {\n\t\treturn ConnectionError{ErrCodeProtocol, \"duplicated Trailer\"}\n\t}\n", New: "\tif st.state != stateOpen {\n\t\treturn StreamError{st.id, ErrCodeStreamClosed, \"recv HEADERS frame on stream not in 'open' state\"}\n\t}\n\tif st.gotTrailerHeader {\n\t\treturn ConnectionError{ErrCodeProtocol, \"duplicated Trailer\"}\n\t}\n", Silent: true},
 }
 
 // ---- package-local call graph --------------------------------------------------
@@ -226,6 +231,10 @@ func runC35(c *core.Ctx) {
 	if e == nil {
 		return
 	}
+	e.declare("Framer.readMetaFrame", "Setting.Valid", "checkValidHTTP2Request", "serverConn.closeStream", "serverConn.newWriterAndRequest",
+		"serverConn.noteBodyRead", "serverConn.noteBodyReadFromHandler", "serverConn.processData", "serverConn.processHeaders", "serverConn.scheduleFrameWrite",
+		"serverConn.serve", "serverConn.startFrameWrite", "serverConn.state", "serverConn.wroteFrame", "stream.endStream", "stream.processTrailerHeaders",
+		"serverConn.resetStream", "serverConn.processResetStream", "SetConnTimeout", "setStreamTimeout", "writeQueue.head", "writeScheduler.take", "writeScheduler.takeFrom")
 	c35Affinity(c, e)
 	c35Panics(c, e)
 	c35Invariants(c, e)
@@ -407,12 +416,12 @@ func c35Panics(c *core.Ctx, e *h2bEnv) {
 	anyV := func(ssa.Value) bool { return true }
 	cmp := func(op token.Token, x, y func(ssa.Value) bool) func(*ssa.BasicBlock, *ssa.Function) bool {
 		return func(b *ssa.BasicBlock, _ *ssa.Function) bool {
-			return h2bGuarded(b, func(r h2bRel) bool { return r.Cmp(op, x, y) })
+			return e.guarded(b, func(r h2bRel) bool { return r.Cmp(op, x, y) })
 		}
 	}
 	flag := func(pol bool, m func(ssa.Value) bool) func(*ssa.BasicBlock, *ssa.Function) bool {
 		return func(b *ssa.BasicBlock, _ *ssa.Function) bool {
-			return h2bGuarded(b, func(r h2bRel) bool { return r.Flag(pol, m) })
+			return e.guarded(b, func(r h2bRel) bool { return r.Flag(pol, m) })
 		}
 	}
 	and := func(fs ...func(*ssa.BasicBlock, *ssa.Function) bool) func(*ssa.BasicBlock, *ssa.Function) bool {
@@ -451,7 +460,7 @@ func c35Panics(c *core.Ctx, e *h2bEnv) {
 		{"serverConn.startFrameWrite", "closed-without-reset", "invariant: closeStream forgets the stream's queue; later frames belong to reset streams (inv-reset-flag)", and(stateIs(6), flag(false, fieldLoad("stream", "sentReset")), flag(false, fieldLoad("stream", "gotReset")))},
 		{"serverConn.wroteFrame", "not-writing", "invariant: wroteFrameCh is fed only after startFrameWrite set writingFrame (inv-writing-frame)", flag(false, fieldLoad("serverConn", "writingFrame"))},
 		{"serverConn.wroteFrame", "unbuffered-done", "invariant: every done channel is created with capacity 1 (inv-done-chan)", func(b *ssa.BasicBlock, _ *ssa.Function) bool {
-			return h2bGuarded(b, func(r h2bRel) bool {
+			return e.guarded(b, func(r h2bRel) bool {
 				for _, v := range []ssa.Value{r.X, r.Y} {
 					if ex, ok := v.(*ssa.Extract); ok {
 						if s, ok := ex.Tuple.(*ssa.Select); ok && !s.Blocking {
@@ -464,22 +473,22 @@ func c35Panics(c *core.Ctx, e *h2bEnv) {
 		}},
 		{"serverConn.wroteFrame", "end-stream-without-stream", "invariant: END_STREAM-carrying writers name their stream (inv-ends-stream)", cmp(token.EQL, fieldLoad("frameWriteMsg", "stream"), h2bNilV)},
 		{"serverConn.closeStream", "idle-or-closed", "invariant: callers pass registered or state-tested streams (inv-close-stream)", func(b *ssa.BasicBlock, _ *ssa.Function) bool {
-			return h2bGuarded(b, func(r h2bRel) bool {
+			return e.guarded(b, func(r h2bRel) bool {
 				return r.Cmp(token.EQL, fieldLoad("stream", "state"), h2bIsInt(0)) || r.Cmp(token.EQL, fieldLoad("stream", "state"), h2bIsInt(6))
 			})
 		}},
 		{"serverConn.processData", "open-without-body", "invariant: open streams have a body pipe (inv-open-has-body)", and(cmp(token.EQL, fieldLoad("stream", "body"), h2bNilV), stateIs(1))},
 		{"serverConn.processData", "short-pipe-write", "callee contract: Pipe.Write returns len(data) on success", func(b *ssa.BasicBlock, _ *ssa.Function) bool {
-			return h2bGuarded(b, func(r h2bRel) bool {
+			return e.guarded(b, func(r h2bRel) bool {
 				return r.Cmp(token.NEQ, func(v ssa.Value) bool { ex, ok := v.(*ssa.Extract); return ok && ex.Index == 0 }, lenOf(anyV))
 			})
 		}},
 		{"serverConn.sendWindowUpdate32", "negative-update", "caller-side: amounts are positive (inv-window-update)", func(b *ssa.BasicBlock, fn *ssa.Function) bool {
-			return len(fn.Params) == 3 && h2bGuarded(b, func(r h2bRel) bool { return r.Cmp(token.LSS, h2bIs(fn.Params[2]), h2bIsInt(0)) })
+			return len(fn.Params) == 3 && e.guarded(b, func(r h2bRel) bool { return r.Cmp(token.LSS, e.is(fn.Params[2]), h2bIsInt(0)) })
 		}},
 		{"serverConn.sendWindowUpdate32", "window-overflow", "invariant: every refund follows a take of the same amount (C33)", flag(false, isFlowAdd)},
 		{"serverConn.notePanic", "test-hook-repanic", "test hook only (testHookOnPanic is nil in production)", func(b *ssa.BasicBlock, _ *ssa.Function) bool {
-			return h2bGuarded(b, func(r h2bRel) bool {
+			return e.guarded(b, func(r h2bRel) bool {
 				return r.Cmp(token.NEQ, func(v ssa.Value) bool {
 					u, ok := v.(*ssa.UnOp)
 					if !ok {
@@ -496,8 +505,8 @@ func c35Panics(c *core.Ctx, e *h2bEnv) {
 		{"responseWriter.WriteHeader", "after-finish", "API misuse by the handler", rwsNil},
 		{"responseWriter.write", "after-finish", "API misuse by the handler", rwsNil},
 		{"flow.take", "took-too-much", "caller-side: every take is guarded by available() (inv-flow-take)", func(b *ssa.BasicBlock, fn *ssa.Function) bool {
-			return len(fn.Params) == 2 && h2bGuarded(b, func(r h2bRel) bool {
-				return r.Cmp(token.GTR, h2bIs(fn.Params[1]), func(v ssa.Value) bool { _, ok := h2bIsCall(v, "flow.available"); return ok })
+			return len(fn.Params) == 2 && e.guarded(b, func(r h2bRel) bool {
+				return r.Cmp(token.GTR, e.is(fn.Params[1]), func(v ssa.Value) bool { _, ok := h2bIsCall(v, "flow.available"); return ok })
 			})
 		}},
 		{"writeScheduler.putEmptyQueue", "queue-not-empty", "invariant: callers hand over drained queues (inv-sched-queues)", cmp(token.NEQ, lenOf(fieldLoad("writeQueue", "s")), h2bIsInt(0))},
@@ -507,18 +516,27 @@ func c35Panics(c *core.Ctx, e *h2bEnv) {
 		{"writeQueue.head", "empty-queue", "invariant: stream queues are deleted when they drain (inv-sched-queues)", cmp(token.EQL, lenOf(fieldLoad("writeQueue", "s")), h2bIsInt(0))},
 		{"writeQueue.shift", "empty-queue", "invariant: stream queues are deleted when they drain; zero is tested with empty() (inv-sched-queues)", cmp(token.EQL, lenOf(fieldLoad("writeQueue", "s")), h2bIsInt(0))},
 		{"endsStream", "nil-writer", "invariant: wroteFrame asks before it clears wm.write (inv-ends-stream)", func(b *ssa.BasicBlock, fn *ssa.Function) bool {
-			return len(fn.Params) == 1 && h2bGuarded(b, func(r h2bRel) bool { return r.Cmp(token.EQL, h2bIs(fn.Params[0]), h2bNilV) })
+			return len(fn.Params) == 1 && e.guarded(b, func(r h2bRel) bool { return r.Cmp(token.EQL, e.is(fn.Params[0]), h2bNilV) })
 		}},
 		{"writeResHeaders.writeFrame", "empty-header-block", "invariant: a response always has :status; only trailers may encode to nothing", and(cmp(token.EQL, lenOf(anyV), h2bIsInt(0)), cmp(token.EQL, fieldLoad("writeResHeaders", "trailers"), h2bNilV))},
 	}
 	files := map[string]bool{"server.go": true, "flow.go": true, "writesched.go": true, "write.go": true}
 	used := map[int]bool{}
 	unrev := map[string]int{}
+	// a panic inside a private helper of a reviewed function is that function's panic
+	var anchors []*ssa.Function
+	for _, en := range table {
+		e.declare(en.fn)
+		if f := c.P.Func(h2bPkg, en.fn); f != nil {
+			anchors = append(anchors, f)
+		}
+	}
 	for _, fn := range e.fns {
 		file := filepath.Base(c.P.Fset.Position(fn.Pos()).Filename)
 		if !files[file] {
 			continue
 		}
+		home := e.home(fn, anchors...)
 		for _, in := range h2bAll(fn) {
 			p, ok := in.(*ssa.Panic)
 			if !ok {
@@ -529,10 +547,10 @@ func c35Panics(c *core.Ctx, e *h2bEnv) {
 					continue // synthesised by go/ssa for select without default
 				}
 			}
-			name := h2bShort(fn)
+			name := h2bShort(home)
 			matched := -1
 			for i, en := range table {
-				if en.fn == name && !used[i] && en.guard(in.Block(), fn) {
+				if en.fn == name && !used[i] && en.guard(in.Block(), home) {
 					matched = i
 					break
 				}
@@ -545,7 +563,7 @@ func c35Panics(c *core.Ctx, e *h2bEnv) {
 			// a known function but the guard changed, or a new site
 			unrev[name]++
 			c.Check("panic-census", fmt.Sprintf("%s:unreviewed#%d", name, unrev[name]), h2bPos(in), false,
-				"explicit panic in "+name+" that matches no reviewed entry (new panic site on the frame path, or the condition guarding a reviewed one changed); guards: "+h2bGuardList(in.Block()))
+				"explicit panic in "+name+" that matches no reviewed entry (new panic site on the frame path, or the condition guarding a reviewed one changed); guards: "+e.guardList(in.Block()))
 		}
 	}
 	c.Min("panic-census", 24)
@@ -696,22 +714,25 @@ func c35Invariants(c *core.Ctx, e *h2bEnv) {
 	closeStream, processHeaders := e.fn("serverConn.closeStream"), e.fn("serverConn.processHeaders")
 	wroteFrame, sched, startFW := e.fn("serverConn.wroteFrame"), e.fn("serverConn.scheduleFrameWrite"), e.fn("serverConn.startFrameWrite")
 	stateFn, newWR := e.fn("serverConn.state"), e.fn("serverConn.newWriterAndRequest")
+	endStreamFn := e.fn("stream.endStream")
 	if streamsF == nil || stateF == nil || bodyF == nil || writingF == nil || writeFrameChF == nil || doneF == nil || msgStreamF == nil || msgWriteF == nil || sentResetF == nil || gotResetF == nil || maxFrameF == nil || pipeF == nil ||
-		closeStream == nil || processHeaders == nil || wroteFrame == nil || sched == nil || startFW == nil || stateFn == nil || newWR == nil {
+		closeStream == nil || processHeaders == nil || wroteFrame == nil || sched == nil || startFW == nil || stateFn == nil || newWR == nil || endStreamFn == nil {
 		return
 	}
-	isStreams := c35Load(streamsF)
+	// each anchor is looked at together with its private helpers
+	phReg, csReg, wfReg, scReg, sfReg := e.region(processHeaders), e.region(closeStream), e.region(wroteFrame), e.region(sched), e.region(startFW)
+	isStreams := func(v ssa.Value) bool { return c35Load(streamsF)(e.rep(v)) }
 	fromMap := func(v ssa.Value, blk *ssa.BasicBlock) bool {
-		v = h2bCanon(v)
+		v = e.rep(v)
 		switch y := v.(type) {
 		case *ssa.Lookup:
 			return !y.CommaOk && isStreams(y.X)
 		case *ssa.Extract:
 			switch t := y.Tuple.(type) {
 			case *ssa.Lookup:
-				return y.Index == 0 && t.CommaOk && isStreams(t.X) && h2bGuarded(blk, func(r h2bRel) bool {
+				return y.Index == 0 && t.CommaOk && isStreams(t.X) && e.guarded(blk, func(r h2bRel) bool {
 					return r.Flag(true, func(o ssa.Value) bool {
-						ex, ok := o.(*ssa.Extract)
+						ex, ok := e.rep(o).(*ssa.Extract)
 						return ok && ex.Index == 1 && ex.Tuple == ssa.Value(t)
 					})
 				})
@@ -720,15 +741,15 @@ func c35Invariants(c *core.Ctx, e *h2bEnv) {
 				return ok && y.Index == 2 && isStreams(rg.X)
 			case *ssa.Call:
 				if core.CallIs(&t.Call, h2bName("serverConn.state")) && y.Index == 1 {
-					return h2bGuarded(blk, func(r h2bRel) bool { return r.Cmp(token.NEQ, h2bIs(v), h2bNilV) })
+					return e.guarded(blk, func(r h2bRel) bool { return r.Cmp(token.NEQ, e.is(v), h2bNilV) })
 				}
 			}
 		}
 		return false
 	}
 	liveState := func(st ssa.Value, blk *ssa.BasicBlock) bool {
-		return h2bGuarded(blk, func(r h2bRel) bool {
-			ld := c35LoadOn(stateF, st)
+		return e.guarded(blk, func(r h2bRel) bool {
+			ld := e.fieldLoadOn(stateF, st)
 			return r.Cmp(token.EQL, ld, h2bIsInt(1)) || r.Cmp(token.EQL, ld, h2bIsInt(2)) || r.Cmp(token.EQL, ld, h2bIsInt(3)) || r.Cmp(token.NEQ, ld, h2bIsInt(6))
 		})
 	}
@@ -748,7 +769,7 @@ func c35Invariants(c *core.Ctx, e *h2bEnv) {
 		}
 		ok := fromMap(args[1], in.Block()) || liveState(args[1], in.Block())
 		c.Check("inv-close-stream", k, in.Pos(), ok,
-			"closeStream is called on "+core.Render(args[1])+", which is neither taken from sc.streams (registered streams are never idle/closed) nor tested for its state here: if the stream was closed meanwhile (RST_STREAM, stream error or timeout processed while this frame was being written) closeStream panics `invariant; can't close stream in state Closed`; guards: "+h2bGuardList(in.Block()))
+			"closeStream is called on "+core.Render(args[1])+", which is neither taken from sc.streams (registered streams are never idle/closed) nor tested for its state here: if the stream was closed meanwhile (RST_STREAM, stream error or timeout processed while this frame was being written) closeStream panics `invariant; can't close stream in state Closed`; guards: "+e.guardList(in.Block()))
 	}
 	for i, r := range core.Returns(stateFn) {
 		if len(r.Results) != 2 {
@@ -760,6 +781,14 @@ func c35Invariants(c *core.Ctx, e *h2bEnv) {
 	c.Min("inv-close-stream", 7)
 
 	// the stream map
+	isDel := func(in ssa.Instruction) bool {
+		y, ok := in.(*ssa.Call)
+		if !ok {
+			return false
+		}
+		b, isB := y.Call.Value.(*ssa.Builtin)
+		return isB && b.Name() == "delete" && isStreams(y.Call.Args[0])
+	}
 	for _, fn := range e.fns {
 		for _, in := range h2bAll(fn) {
 			switch y := in.(type) {
@@ -767,32 +796,23 @@ func c35Invariants(c *core.Ctx, e *h2bEnv) {
 				if !isStreams(y.Map) {
 					continue
 				}
-				ok := fn == processHeaders
+				ok := phReg.in[fn]
 				if ok {
-					lit := h2bLitOf(y.Value)
+					lit := h2bLitOf(e.rep(y.Value))
 					v, has := h2bLitFields(lit)["state"]
 					k, isK := h2bInt(v)
 					ok = lit != nil && has && isK && (k == 1 || k == 3)
 				}
-				c.Check("inv-stream-map", h2bShort(fn)+":register", in.Pos(), ok, "sc.streams is extended in "+h2bShort(fn)+" with "+core.Render(y.Value)+"; only processHeaders may register a freshly created stream in state open/half-closed(remote)")
+				c.Check("inv-stream-map", h2bShort(e.home(fn, processHeaders))+":register", in.Pos(), ok, "sc.streams is extended in "+h2bShort(fn)+" with "+core.Render(y.Value)+"; only processHeaders may register a freshly created stream in state open/half-closed(remote)")
 			case *ssa.Call:
-				b, isB := y.Call.Value.(*ssa.Builtin)
-				if !isB || b.Name() != "delete" || !isStreams(y.Call.Args[0]) {
+				if !isDel(in) {
 					continue
 				}
-				c.Check("inv-stream-map", h2bShort(fn)+":unregister", in.Pos(), fn == closeStream, "a stream is removed from sc.streams in "+h2bShort(fn)+", outside closeStream (its state would not become closed)")
+				c.Check("inv-stream-map", h2bShort(e.home(fn, closeStream))+":unregister", in.Pos(), csReg.in[fn], "a stream is removed from sc.streams in "+h2bShort(fn)+", outside closeStream (its state would not become closed)")
 			}
 		}
 	}
 	{
-		isDel := func(in ssa.Instruction) bool {
-			y, ok := in.(*ssa.Call)
-			if !ok {
-				return false
-			}
-			b, isB := y.Call.Value.(*ssa.Builtin)
-			return isB && b.Name() == "delete" && isStreams(y.Call.Args[0])
-		}
 		isClosed := func(in ssa.Instruction) bool {
 			st, ok := in.(*ssa.Store)
 			if !ok {
@@ -807,40 +827,40 @@ func c35Invariants(c *core.Ctx, e *h2bEnv) {
 			return ok && core.CallIs(ci.Common(), h2bName("writeScheduler.forgetStream"))
 		}
 		c.Check("inv-stream-map", "serverConn.closeStream:closes-and-unregisters", closeStream.Pos(),
-			core.MustPass(closeStream, nil, isDel) == nil && core.MustPass(closeStream, nil, isClosed) == nil,
+			csReg.mustPass(nil, isDel) == nil && csReg.mustPass(nil, isClosed) == nil,
 			"closeStream can return without both setting state = stateClosed and deleting the stream from sc.streams (registered <=> not closed breaks)")
-		c.Check("inv-reset-flag", "serverConn.closeStream:forgets-queue", closeStream.Pos(), core.MustPass(closeStream, nil, isForget) == nil,
+		c.Check("inv-reset-flag", "serverConn.closeStream:forgets-queue", closeStream.Pos(), csReg.mustPass(nil, isForget) == nil,
 			"closeStream can return without writeSched.forgetStream: queued frames of a closed stream reach startFrameWrite (panic `attempt to send a write on a closed stream`)")
 	}
 	c.Min("inv-stream-map", 3)
 
 	// writers of stream.state
+	isEnded := func(v ssa.Value) bool { _, is := h2bIsCall(e.rep(v), "HeadersFrame.StreamEnded"); return is }
 	for _, s := range core.FieldStores(e.fns, stateF) {
 		k, isK := h2bInt(s.Store.Val)
-		name := h2bShort(s.Fn)
+		home := e.home(s.Fn, processHeaders, endStreamFn, closeStream, wroteFrame)
+		name := h2bShort(home)
 		key := fmt.Sprintf("%s:=%s", name, core.Render(s.Store.Val))
 		base, _ := h2bStoreField(s.Store, stateF)
 		ok := false
-		why := "stream.state is assigned " + core.Render(s.Store.Val) + " in " + name + "; reviewed writers: processHeaders (open, half-closed-remote under END_STREAM), stream.endStream (half-closed-remote), wroteFrame (half-closed-local immediately followed by resetStream), closeStream (closed)"
+		why := "stream.state is assigned " + core.Render(s.Store.Val) + " in " + h2bShort(s.Fn) + "; reviewed writers: processHeaders (open, half-closed-remote under END_STREAM), stream.endStream (half-closed-remote), wroteFrame (half-closed-local immediately followed by resetStream), closeStream (closed)"
 		switch {
 		case !isK:
-		case name == "serverConn.processHeaders" && k == 1:
+		case home == processHeaders && k == 1:
 			ok = true
-		case name == "serverConn.processHeaders" && k == 3:
-			ok = h2bGuarded(s.Store.Block(), func(r h2bRel) bool {
-				return r.Flag(true, func(v ssa.Value) bool { _, is := h2bIsCall(v, "HeadersFrame.StreamEnded"); return is })
-			})
-		case name == "stream.endStream" && k == 3:
+		case home == processHeaders && k == 3:
+			ok = e.guarded(s.Store.Block(), func(r h2bRel) bool { return r.Flag(true, isEnded) })
+		case home == endStreamFn && k == 3:
 			ok = true
-		case name == "serverConn.closeStream" && k == 6:
+		case home == closeStream && k == 6:
 			ok = true
-		case name == "serverConn.wroteFrame" && k == 2:
+		case home == wroteFrame && k == 2:
 			isReset := func(in ssa.Instruction) bool {
 				ci, is := in.(ssa.CallInstruction)
 				return is && core.CallIs(ci.Common(), h2bName("serverConn.resetStream"))
 			}
-			ok = h2bGuarded(s.Store.Block(), func(r h2bRel) bool { return r.Cmp(token.EQL, c35LoadOn(stateF, base), h2bIsInt(1)) }) &&
-				core.MustPass(s.Fn, s.Store, isReset) == nil
+			ok = e.guarded(s.Store.Block(), func(r h2bRel) bool { return r.Cmp(token.EQL, e.fieldLoadOn(stateF, base), h2bIsInt(1)) }) &&
+				wfReg.mustPass(s.Store, isReset) == nil
 			why += "; here: not under state == open or not followed by resetStream on every path"
 		}
 		c.Check("inv-state-writers", key, s.Store.Pos(), ok, why)
@@ -851,14 +871,14 @@ func c35Invariants(c *core.Ctx, e *h2bEnv) {
 	{
 		var reg ssa.Instruction
 		var newStream ssa.Value
-		for _, in := range h2bAll(processHeaders) {
+		for _, in := range phReg.all() {
 			if mu, ok := in.(*ssa.MapUpdate); ok && isStreams(mu.Map) {
 				reg, newStream = in, mu.Value
 			}
 		}
 		var bodyStore *ssa.Store
-		for _, s := range core.FieldStores([]*ssa.Function{processHeaders}, bodyF) {
-			if b, _ := h2bStoreField(s.Store, bodyF); newStream != nil && h2bEq(b, newStream) {
+		for _, s := range core.FieldStores(phReg.fns, bodyF) {
+			if b, _ := h2bStoreField(s.Store, bodyF); newStream != nil && e.eq(b, newStream) {
 				bodyStore = s.Store
 			}
 		}
@@ -866,17 +886,15 @@ func c35Invariants(c *core.Ctx, e *h2bEnv) {
 		if ok {
 			isOK := func(in ssa.Instruction) bool {
 				r, is := in.(*ssa.Return)
-				return is && h2bIsNil(c35ErrResult(r))
+				return is && phReg.isExit(in) && h2bIsNil(c35ErrResult(r))
 			}
-			ok = core.ReachAvoiding(processHeaders, reg, h2bInstrIs(bodyStore), isOK) == nil && c35Load(pipeF)(bodyStore.Val)
+			ok = phReg.reachAfter(reg, h2bInstrIs(bodyStore), isOK) == nil && c35Load(pipeF)(e.rep(bodyStore.Val))
 		}
 		c.Check("inv-open-has-body", "serverConn.processHeaders:body-assigned", h2bPos(reg), ok,
 			"processHeaders can return success for a newly registered stream without st.body having been set from the request body's pipe")
 		for i, s := range core.FieldStores(e.fns, pipeF) {
-			okP := s.Fn == newWR && !h2bIsNil(s.Store.Val) && h2bGuarded(s.Store.Block(), func(r h2bRel) bool {
-				return r.Flag(false, func(v ssa.Value) bool { _, is := h2bIsCall(v, "HeadersFrame.StreamEnded"); return is })
-			})
-			c.Check("inv-open-has-body", fmt.Sprintf("%s:pipe#%d", h2bShort(s.Fn), i+1), s.Store.Pos(), okP,
+			okP := e.within(s.Fn, newWR) && !h2bIsNil(s.Store.Val) && e.guarded(s.Store.Block(), func(r h2bRel) bool { return r.Flag(false, isEnded) })
+			c.Check("inv-open-has-body", fmt.Sprintf("%s:pipe#%d", h2bShort(e.home(s.Fn, newWR)), i+1), s.Store.Pos(), okP,
 				"RequestBody.pipe is assigned in "+h2bShort(s.Fn)+" not under !f.StreamEnded(): `state open <=> body pipe present` no longer follows from construction")
 		}
 		c.Min("inv-open-has-body", 3)
@@ -885,9 +903,9 @@ func c35Invariants(c *core.Ctx, e *h2bEnv) {
 	// endStream only for open streams
 	{
 		openGuard := func(st ssa.Value, blk *ssa.BasicBlock) bool {
-			ld := c35LoadOn(stateF, st)
-			return h2bGuarded(blk, func(r h2bRel) bool {
-				return r.Cmp(token.EQL, ld, h2bIsInt(1)) || r.Cmp(token.NEQ, ld, h2bIsInt(3)) || r.Cmp(token.NEQ, c35LoadOn(bodyF, st), h2bNilV)
+			ld := e.fieldLoadOn(stateF, st)
+			return e.guarded(blk, func(r h2bRel) bool {
+				return r.Cmp(token.EQL, ld, h2bIsInt(1)) || r.Cmp(token.NEQ, ld, h2bIsInt(3)) || r.Cmp(token.NEQ, e.fieldLoadOn(bodyF, st), h2bNilV)
 			})
 		}
 		for _, s := range e.callSites("stream.endStream") {
@@ -902,7 +920,7 @@ func c35Invariants(c *core.Ctx, e *h2bEnv) {
 				for _, o := range outer {
 					oin := o.Call.(ssa.Instruction)
 					c.Check("inv-end-stream", h2bShort(o.Fn)+":"+s.Fn.Name(), oin.Pos(), openGuard(o.Call.Common().Args[0], oin.Block()),
-						h2bShort(o.Fn)+" hands a registered stream to "+s.Fn.Name()+", which ends it with stream.endStream, without having established that it is still open: for a stream in half-closed(remote) created by HEADERS+END_STREAM the body pipe is nil and endStream dereferences it (nil-pointer panic on the serve goroutine); RFC 7540 5.1 requires STREAM_CLOSED for HEADERS on such a stream; guards: "+h2bGuardList(oin.Block()))
+						h2bShort(o.Fn)+" hands a registered stream to "+s.Fn.Name()+", which ends it with stream.endStream, without having established that it is still open: for a stream in half-closed(remote) created by HEADERS+END_STREAM the body pipe is nil and endStream dereferences it (nil-pointer panic on the serve goroutine); RFC 7540 5.1 requires STREAM_CLOSED for HEADERS on such a stream; guards: "+e.guardList(oin.Block()))
 				}
 				if len(outer) > 0 {
 					continue
@@ -929,19 +947,21 @@ func c35Invariants(c *core.Ctx, e *h2bEnv) {
 			if lit := h2bLitOf(s.Call.Common().Args[1]); lit != nil {
 				kind = strings.TrimPrefix(strings.TrimPrefix(h2bDynType(h2bLitFields(lit)["write"]), "*"), "bfe_http2.")
 			}
-			k := h2bShort(s.Fn) + ":start(" + kind + ")"
+			k := h2bShort(e.home(s.Fn, sched)) + ":start(" + kind + ")"
 			n[k]++
 			if n[k] > 1 {
 				k += fmt.Sprintf("#%d", n[k])
 			}
-			ok := s.Fn == sched && h2bGuarded(in.Block(), func(r h2bRel) bool { return r.Flag(false, c35Load(writingF)) }) &&
-				core.ReachAvoiding(s.Fn, in, nil, isStart) == nil
-			c.Check("inv-writing-frame", k, in.Pos(), ok, "startFrameWrite must be called only from scheduleFrameWrite, under !sc.writingFrame, at most once per pass (otherwise `can only be writing one frame at a time` panics); guards: "+h2bGuardList(in.Block()))
+			ok := scReg.in[s.Fn] && e.guarded(in.Block(), func(r h2bRel) bool {
+				return r.Flag(false, func(v ssa.Value) bool { return c35Load(writingF)(e.rep(v)) })
+			}) &&
+				scReg.reachAfter(in, nil, isStart) == nil
+			c.Check("inv-writing-frame", k, in.Pos(), ok, "startFrameWrite must be called only from scheduleFrameWrite, under !sc.writingFrame, at most once per pass (otherwise `can only be writing one frame at a time` panics); guards: "+e.guardList(in.Block()))
 		}
 		for _, s := range core.FieldStores(e.fns, writingF) {
 			v, isB := h2bBool(s.Store.Val)
-			ok := isB && ((v && s.Fn == startFW) || (!v && s.Fn == wroteFrame))
-			c.Check("inv-writing-frame", fmt.Sprintf("%s:writingFrame=%v", h2bShort(s.Fn), core.Render(s.Store.Val)), s.Store.Pos(), ok, "sc.writingFrame is set in "+h2bShort(s.Fn)+"; only startFrameWrite sets it and only wroteFrame clears it")
+			ok := isB && ((v && sfReg.in[s.Fn]) || (!v && wfReg.in[s.Fn]))
+			c.Check("inv-writing-frame", fmt.Sprintf("%s:writingFrame=%v", h2bShort(e.home(s.Fn, startFW, wroteFrame)), core.Render(s.Store.Val)), s.Store.Pos(), ok, "sc.writingFrame is set in "+h2bShort(s.Fn)+"; only startFrameWrite sets it and only wroteFrame clears it")
 		}
 		// sends on writeFrameCh
 		for _, fn := range e.fns {
@@ -958,19 +978,19 @@ func c35Invariants(c *core.Ctx, e *h2bEnv) {
 					}
 				}
 				for _, ch := range chans {
-					if !c35Load(writeFrameChF)(ch) {
+					if !c35Load(writeFrameChF)(e.rep(ch)) {
 						continue
 					}
-					ok := fn == startFW
+					ok := sfReg.in[fn]
 					if ok {
 						ok = false
-						for _, s := range core.FieldStores([]*ssa.Function{fn}, writingF) {
-							if v, isB := h2bBool(s.Store.Val); isB && v && core.Dominates(s.Store, in) {
+						for _, s := range core.FieldStores(sfReg.fns, writingF) {
+							if v, isB := h2bBool(s.Store.Val); isB && v && sfReg.dominates(s.Store, in) {
 								ok = true
 							}
 						}
 					}
-					c.Check("inv-writing-frame", h2bShort(fn)+":send-writeFrameCh", in.Pos(), ok, "a frame is handed to the writer goroutine in "+h2bShort(fn)+" without sc.writingFrame having been set first (wroteFrame would panic `expected to be already writing a frame`)")
+					c.Check("inv-writing-frame", h2bShort(e.home(fn, startFW))+":send-writeFrameCh", in.Pos(), ok, "a frame is handed to the writer goroutine in "+h2bShort(fn)+" without sc.writingFrame having been set first (wroteFrame would panic `expected to be already writing a frame`)")
 				}
 			}
 		}
@@ -1007,7 +1027,7 @@ func c35Invariants(c *core.Ctx, e *h2bEnv) {
 			if nDone[k] > 1 {
 				k += fmt.Sprintf("#%d", nDone[k])
 			}
-			c.Check("inv-done-chan", k, s.Store.Pos(), chk(s.Store.Val, 0), "frameWriteMsg.done is "+core.Render(s.Store.Val)+"; it must be nil or a channel made with capacity >= 1 (wroteFrame replies with a non-blocking send and panics otherwise)")
+			c.Check("inv-done-chan", k, s.Store.Pos(), chk(e.rep(s.Store.Val), 0), "frameWriteMsg.done is "+core.Render(s.Store.Val)+"; it must be nil or a channel made with capacity >= 1 (wroteFrame replies with a non-blocking send and panics otherwise)")
 		}
 		c.Min("inv-done-chan", 2)
 		nES := 0
@@ -1030,7 +1050,7 @@ func c35Invariants(c *core.Ctx, e *h2bEnv) {
 		}
 		// endsStream is asked before wm.write is cleared
 		var clear ssa.Instruction
-		for _, in := range h2bAll(wroteFrame) {
+		for _, in := range wfReg.all() {
 			st, ok := in.(*ssa.Store)
 			if !ok || !h2bIsNil(st.Val) {
 				continue
@@ -1044,7 +1064,7 @@ func c35Invariants(c *core.Ctx, e *h2bEnv) {
 				ci, ok := in.(ssa.CallInstruction)
 				return ok && core.CallIs(ci.Common(), h2bName("endsStream"))
 			}
-			c.Check("inv-ends-stream", "serverConn.wroteFrame:asked-before-cleared", clear.Pos(), core.ReachAvoiding(wroteFrame, clear, nil, isEnds) == nil,
+			c.Check("inv-ends-stream", "serverConn.wroteFrame:asked-before-cleared", clear.Pos(), wfReg.reachAfter(clear, nil, isEnds) == nil,
 				"endsStream(wm.write) can run after wm.write was set to nil (panics `endsStream called on nil writeFramer`)")
 		}
 		c.Min("inv-ends-stream", 2)
@@ -1059,16 +1079,17 @@ func c35Invariants(c *core.Ctx, e *h2bEnv) {
 		if fn == nil {
 			continue
 		}
-		for _, call := range core.Calls(fn, h2bName("serverConn.closeStream")) {
+		freg := e.region(fn)
+		for _, call := range freg.calls("serverConn.closeStream") {
 			in := call.(ssa.Instruction)
 			if len(call.Common().Args) < 2 {
 				continue
 			}
 			st := call.Common().Args[1]
 			ok := false
-			for _, s := range core.FieldStores([]*ssa.Function{fn}, row.fld) {
+			for _, s := range core.FieldStores(freg.fns, row.fld) {
 				b, _ := h2bStoreField(s.Store, row.fld)
-				if v, isB := h2bBool(s.Store.Val); isB && v && h2bEq(b, st) && core.Dominates(s.Store, in) {
+				if v, isB := h2bBool(s.Store.Val); isB && v && e.eq(b, st) && freg.dominates(s.Store, in) {
 					ok = true
 				}
 			}
@@ -1083,7 +1104,7 @@ func c35Invariants(c *core.Ctx, e *h2bEnv) {
 		k, isK := h2bInt(s.Store.Val)
 		ok := isK && k > 0
 		if !isK {
-			ok = h2bGuarded(s.Store.Block(), func(r h2bRel) bool {
+			ok = e.guarded(s.Store.Block(), func(r h2bRel) bool {
 				return r.Cmp(token.EQL, func(v ssa.Value) bool { _, is := h2bIsCall(v, "Setting.Valid"); return is }, h2bNilV)
 			})
 		}
@@ -1096,7 +1117,7 @@ func c35Invariants(c *core.Ctx, e *h2bEnv) {
 			if !c35NonNilErr(c35ErrResult(r)) {
 				continue
 			}
-			if h2bSomeEdge(r.Block(), func(rel h2bRel) bool {
+			if e.someEdge(r.Block(), func(rel h2bRel) bool {
 				return rel.Cmp(token.LSS, func(v ssa.Value) bool { f, _ := h2bAnyFieldLoad(v); return f != nil && f.Name() == "Val" }, h2bIsInt(16384))
 			}) {
 				found = true
@@ -1106,24 +1127,24 @@ func c35Invariants(c *core.Ctx, e *h2bEnv) {
 	}
 	c.Min("inv-max-frame-size", 3)
 
-	// flow.take guarded by available()
+	// flow.take guarded by available(): a comparison involving available() of the
+	// same flow controls the call
 	nTake := map[string]int{}
 	for _, s := range e.callSites("flow.take") {
 		in := s.Call.(ssa.Instruction)
-		recv := core.Render(s.Call.Common().Args[0])
-		want := "flow.available(" + recv + ")"
-		ok := false
-		for _, g := range core.GuardsAt(in.Block()) {
-			if strings.Contains(g.Str, want) {
-				ok = true
-			}
+		recvV := s.Call.Common().Args[0]
+		recv := core.Render(recvV)
+		isAvail := func(v ssa.Value) bool {
+			call, ok := h2bIsCall(core.StripConv(e.rep(v)), "flow.available")
+			return ok && len(call.Call.Args) == 1 && e.eq(call.Call.Args[0], recvV)
 		}
+		ok := e.guarded(in.Block(), func(r h2bRel) bool { return r.Op != token.ILLEGAL && (isAvail(r.X) || isAvail(r.Y)) })
 		k := h2bShort(s.Fn) + ":take(" + recv + ")"
 		nTake[k]++
 		if nTake[k] > 1 {
 			k += fmt.Sprintf("#%d", nTake[k])
 		}
-		c.Check("inv-flow-take", k, in.Pos(), ok, "flow.take on "+recv+" is not control-dependent on a comparison with "+want+" (take panics `took too much`); guards: "+h2bGuardList(in.Block()))
+		c.Check("inv-flow-take", k, in.Pos(), ok, "flow.take on "+recv+" is not control-dependent on a comparison with flow.available("+recv+") (take panics `took too much`); guards: "+e.guardList(in.Block()))
 	}
 	c.Min("inv-flow-take", 4)
 
@@ -1153,9 +1174,9 @@ func c35Invariants(c *core.Ctx, e *h2bEnv) {
 				}
 			}
 			if !ok {
-				ok = h2bGuarded(in.Block(), func(r h2bRel) bool { return r.Cmp(token.GTR, h2bIs(v), h2bIsInt(0)) })
+				ok = e.guarded(in.Block(), func(r h2bRel) bool { return r.Cmp(token.GTR, e.is(v), h2bIsInt(0)) })
 			}
-			if !ok && nb != nil && s.Fn == nb && len(nb.Params) == 3 && h2bCanon(v) == ssa.Value(nb.Params[2]) {
+			if !ok && nb != nil && e.within(s.Fn, nb) && len(nb.Params) == 3 && e.rep(v) == e.rep(nb.Params[2]) {
 				ok = true // checked at the producer below
 			}
 			if !ok {
@@ -1181,10 +1202,11 @@ func c35Invariants(c *core.Ctx, e *h2bEnv) {
 				continue
 			}
 			v := s.Call.Common().Args[2]
-			c.Check("inv-window-update", h2bShort(s.Fn)+":noteBodyReadFromHandler", in.Pos(), h2bGuarded(in.Block(), func(r h2bRel) bool { return r.Cmp(token.GTR, h2bIs(v), h2bIsInt(0)) }),
+			c.Check("inv-window-update", h2bShort(s.Fn)+":noteBodyReadFromHandler", in.Pos(), e.guarded(in.Block(), func(r h2bRel) bool { return r.Cmp(token.GTR, e.is(v), h2bIsInt(0)) }),
 				"a body-read notification is sent with a count not known to be positive")
 		}
 		if bodyReadChF != nil {
+			nbh := c.P.Func(h2bPkg, "serverConn.noteBodyReadFromHandler")
 			for _, fn := range e.fns {
 				for _, in := range h2bAll(fn) {
 					sel, ok := in.(*ssa.Select)
@@ -1192,8 +1214,8 @@ func c35Invariants(c *core.Ctx, e *h2bEnv) {
 						continue
 					}
 					for _, st := range sel.States {
-						if st.Dir == types.SendOnly && c35Load(bodyReadChF)(st.Chan) {
-							c.Check("inv-window-update", h2bShort(fn)+":send-bodyReadCh", in.Pos(), h2bShort(fn) == "serverConn.noteBodyReadFromHandler", "bodyReadCh is fed from "+h2bShort(fn)+", outside noteBodyReadFromHandler")
+						if st.Dir == types.SendOnly && c35Load(bodyReadChF)(e.rep(st.Chan)) {
+							c.Check("inv-window-update", h2bShort(e.home(fn, nbh))+":send-bodyReadCh", in.Pos(), e.within(fn, nbh), "bodyReadCh is fed from "+h2bShort(fn)+", outside noteBodyReadFromHandler")
 						}
 					}
 				}
@@ -1217,7 +1239,7 @@ func c35Invariants(c *core.Ctx, e *h2bEnv) {
 				}
 			}
 			ok := false
-			for _, in := range h2bAll(fn) {
+			for _, in := range e.region(fn).all() {
 				sel, isSel := in.(*ssa.Select)
 				if !isSel {
 					continue
@@ -1226,11 +1248,11 @@ func c35Invariants(c *core.Ctx, e *h2bEnv) {
 					if st.Dir != types.SendOnly {
 						continue
 					}
-					b, isTV := h2bFieldLoad(st.Chan, tvF)
-					if !isTV || body == nil || !c35LoadOn(connF, body)(b) {
+					b, isTV := h2bFieldLoad(e.rep(st.Chan), tvF)
+					if !isTV || body == nil || !e.fieldLoadOn(connF, body)(b) {
 						continue
 					}
-					if rb, has := h2bLitFields(h2bLitOf(st.Send))["rb"]; has && h2bEq(rb, body) {
+					if rb, has := h2bLitFields(h2bLitOf(st.Send))["rb"]; has && e.eq(rb, body) {
 						ok = true
 					}
 				}
@@ -1252,10 +1274,15 @@ func c35RFC(c *core.Ctx, e *h2bEnv) {
 	if streamsF == nil || stateF == nil || maxIDF == nil || curF == nil || advF == nil || gotTrF == nil || ph == nil {
 		return
 	}
-	isStreams := c35Load(streamsF)
+	phReg := e.region(ph)
+	closeStream := c.P.Func(h2bPkg, "serverConn.closeStream")
+	isStreams := func(v ssa.Value) bool { return c35Load(streamsF)(e.rep(v)) }
+	load := func(f *types.Var) func(ssa.Value) bool {
+		return func(v ssa.Value) bool { return c35Load(f)(e.rep(v)) }
+	}
 	var reg *ssa.MapUpdate
 	var goHandler ssa.Instruction
-	for _, in := range h2bAll(ph) {
+	for _, in := range phReg.all() {
 		if mu, ok := in.(*ssa.MapUpdate); ok && isStreams(mu.Map) {
 			reg = mu
 		}
@@ -1267,55 +1294,74 @@ func c35RFC(c *core.Ctx, e *h2bEnv) {
 		c.Missing("serverConn.processHeaders: stream registration (sc.streams[id] = st) / go sc.runHandler")
 		return
 	}
-	id := reg.Key
+	id := e.rep(reg.Key)
 	const k = "serverConn.processHeaders:"
 	isStreamID := func(v ssa.Value) bool {
-		f, ok := h2bCanon(v).(*ssa.Field)
+		f, ok := e.rep(v).(*ssa.Field)
 		return ok && core.FieldObj(f.X, f.Field) != nil && core.FieldObj(f.X, f.Field).Name() == "StreamID"
 	}
 	c.Check("rfc", k+"id-from-frame", reg.Pos(), isStreamID(id), "the new stream is registered under "+core.Render(id)+", not the frame header's StreamID")
 
+	// enforced: the site is reached only where `good` was established, and the
+	// branch that established it rejects with an error on its other side.
+	// Returns the deciding branch.
+	enforced := func(site ssa.Instruction, good func(h2bRel) bool) (*ssa.If, bool) {
+		if !e.guarded(site.Block(), good) {
+			return nil, false
+		}
+		for _, g := range e.guardsCtx(site.Block()) {
+			if g.If == nil || !h2bImplies(e, g.Cond, g.Pol, good, 0) {
+				continue
+			}
+			other := g.If.Block().Succs[0]
+			if g.Pol {
+				other = g.If.Block().Succs[1]
+			}
+			if c35RejectsWithError(other) {
+				return g.If, true
+			}
+		}
+		return nil, false
+	}
+
 	// odd ids
 	{
 		isRem := func(v ssa.Value) bool {
-			b, ok := v.(*ssa.BinOp)
-			if !ok || b.Op != token.REM || !h2bEq(b.X, id) {
+			b, ok := e.rep(v).(*ssa.BinOp)
+			if !ok || b.Op != token.REM || !e.eq(b.X, id) {
 				return false
 			}
 			kk, isK := h2bInt(b.Y)
 			return isK && kk == 2
 		}
-		ifi, rej := c35Reject(ph, func(r h2bRel) bool {
-			return r.Cmp(token.NEQ, isRem, h2bIsInt(1)) || r.Cmp(token.EQL, isRem, h2bIsInt(0))
+		ifi, ok := enforced(reg, func(r h2bRel) bool {
+			return r.Cmp(token.EQL, isRem, h2bIsInt(1)) || r.Cmp(token.NEQ, isRem, h2bIsInt(0))
 		})
-		ok := ifi != nil && c35RejectsWithError(rej) && core.Dominates(ifi, reg)
 		c.Check("rfc", k+"odd-stream-id", h2bPos(ifi), ok, "no test `id%2 != 1 -> error` dominating stream creation: even (server-initiated) stream ids are accepted from the client (RFC 7540 5.1.1)")
 	}
 	// increasing ids
 	{
-		ifi, rej := c35Reject(ph, func(r h2bRel) bool { return r.Cmp(token.LEQ, h2bIs(id), c35Load(maxIDF)) })
-		ok := ifi != nil && c35RejectsWithError(rej) && core.Dominates(ifi, reg)
+		ifi, ok := enforced(reg, func(r h2bRel) bool { return r.Cmp(token.GTR, e.is(id), load(maxIDF)) })
 		c.Check("rfc", k+"increasing-stream-id", h2bPos(ifi), ok, "no test `id <= sc.maxStreamID -> error` dominating stream creation: a stream id can be reused or go backwards (RFC 7540 5.1.1)")
 		var upd *ssa.Store
-		for _, s := range core.FieldStores([]*ssa.Function{ph}, maxIDF) {
+		for _, s := range core.FieldStores(phReg.fns, maxIDF) {
 			upd = s.Store
 		}
-		ok2 := upd != nil && h2bEq(upd.Val, id) && ifi != nil && core.Dominates(ifi, upd)
+		ok2 := upd != nil && e.eq(upd.Val, id) && ifi != nil && phReg.dominates(ifi, upd)
 		if ok2 {
 			// every path from the id test to the registration records the id
-			ok2 = core.ReachAvoiding(ph, ifi, h2bInstrIs(upd), h2bInstrIs(reg)) == nil
+			ok2 = phReg.reachAfter(ifi, h2bInstrIs(upd), h2bInstrIs(reg)) == nil
 		}
 		c.Check("rfc", k+"max-stream-id-recorded", h2bPos(upd), ok2, "sc.maxStreamID is not set to the new id between the monotonicity test and the registration of the stream")
 		for _, s := range core.FieldStores(e.fns, maxIDF) {
-			if s.Fn != ph {
+			if !phReg.in[s.Fn] {
 				c.Check("rfc", h2bShort(s.Fn)+":max-stream-id-writer", s.Store.Pos(), false, "sc.maxStreamID is written in "+h2bShort(s.Fn)+", outside processHeaders")
 			}
 		}
 	}
 	// concurrency limit
 	{
-		ifi, rej := c35Reject(ph, func(r h2bRel) bool { return r.Cmp(token.GTR, c35Load(curF), c35Load(advF)) })
-		ok := ifi != nil && c35RejectsWithError(rej) && core.Dominates(ifi, goHandler)
+		ifi, ok := enforced(goHandler, func(r h2bRel) bool { return r.Cmp(token.LEQ, load(curF), load(advF)) })
 		c.Check("rfc", k+"concurrency-limit", h2bPos(ifi), ok, "no test `sc.curOpenStreams > sc.advMaxStreams -> error` dominating the start of the handler: the advertised SETTINGS_MAX_CONCURRENT_STREAMS is not enforced (RFC 7540 5.1.2)")
 		var inc *ssa.Store
 		for _, s := range core.FieldStores(e.fns, curF) {
@@ -1323,26 +1369,27 @@ func c35RFC(c *core.Ctx, e *h2bEnv) {
 			one := false
 			if isB {
 				kk, isK := h2bInt(b.Y)
-				one = isK && kk == 1 && c35Load(curF)(b.X)
+				one = isK && kk == 1 && load(curF)(b.X)
 			}
-			name := h2bShort(s.Fn)
+			name := h2bShort(e.home(s.Fn, ph, closeStream))
 			switch {
-			case one && b.Op == token.ADD && s.Fn == ph:
+			case one && b.Op == token.ADD && phReg.in[s.Fn]:
 				inc = s.Store
-				c.Check("rfc", name+":open-count++", s.Store.Pos(), core.Dominates(reg, s.Store), "curOpenStreams is incremented before the stream is registered")
-			case one && b.Op == token.SUB && name == "serverConn.closeStream":
+				c.Check("rfc", name+":open-count++", s.Store.Pos(), phReg.dominates(reg, s.Store), "curOpenStreams is incremented before the stream is registered")
+			case one && b.Op == token.SUB && e.within(s.Fn, closeStream):
 				c.Check("rfc", name+":open-count--", s.Store.Pos(), true, "")
 			default:
 				c.Check("rfc", name+":open-count-writer", s.Store.Pos(), false, "sc.curOpenStreams is written as "+core.Render(s.Store.Val)+" in "+name+"; only ++ in processHeaders and -- in closeStream keep it equal to the number of registered streams")
 			}
 		}
-		c.Check("rfc", k+"counted-before-limit", h2bPos(ifi), inc != nil && ifi != nil && core.Dominates(inc, ifi), "the new stream is not counted in curOpenStreams before the limit test")
+		c.Check("rfc", k+"counted-before-limit", h2bPos(ifi), inc != nil && ifi != nil && phReg.dominates(inc, ifi), "the new stream is not counted in curOpenStreams before the limit test")
 		// what is advertised
 		okAdv := false
 		if serve := e.fn("serverConn.serve"); serve != nil {
-			for _, in := range h2bAll(serve) {
+			all := e.region(serve).all()
+			for _, in := range all {
 				st, isSt := in.(*ssa.Store)
-				if !isSt || !c35Load(advF)(st.Val) {
+				if !isSt || !load(advF)(st.Val) {
 					continue
 				}
 				fa, isFA := st.Addr.(*ssa.FieldAddr)
@@ -1350,7 +1397,7 @@ func c35RFC(c *core.Ctx, e *h2bEnv) {
 					continue
 				}
 				// sibling store of the ID
-				for _, in2 := range h2bAll(serve) {
+				for _, in2 := range all {
 					st2, is2 := in2.(*ssa.Store)
 					if !is2 {
 						continue
@@ -1367,39 +1414,65 @@ func c35RFC(c *core.Ctx, e *h2bEnv) {
 		c.Check("rfc", "serverConn.serve:limit-advertised", ph.Pos(), okAdv, "the initial SETTINGS frame does not announce SETTINGS_MAX_CONCURRENT_STREAMS = sc.advMaxStreams, the value processHeaders enforces")
 	}
 
+	// rejects: some branch of the region has an edge that establishes `bad` and
+	// leads only to error returns
+	rejects := func(r *h2bReg, bad func(h2bRel) bool) (*ssa.If, bool) {
+		var first *ssa.If
+		for _, ifi := range r.ifs() {
+			b := ifi.Block()
+			if len(b.Succs) != 2 || b.Succs[0] == b.Succs[1] {
+				continue
+			}
+			for j, pol := range []bool{true, false} {
+				if !h2bImplies(e, ifi.Cond, pol, bad, 0) {
+					continue
+				}
+				if first == nil {
+					first = ifi
+				}
+				if c35RejectsWithError(b.Succs[j]) {
+					return ifi, true
+				}
+			}
+		}
+		return first, false
+	}
+
 	// trailers
 	if fn := e.fn("stream.processTrailerHeaders"); fn != nil {
 		const kt = "stream.processTrailerHeaders:"
-		isEnded := func(v ssa.Value) bool { _, ok := h2bIsCall(v, "HeadersFrame.StreamEnded"); return ok }
-		ifi, rej := c35Reject(fn, func(r h2bRel) bool { return r.Flag(false, isEnded) })
-		c.Check("rfc", kt+"end-stream-required", h2bPos(ifi), ifi != nil && c35RejectsWithError(rej), "trailers without END_STREAM are not rejected (RFC 7540 8.1)")
-		ifi, rej = c35Reject(fn, func(r h2bRel) bool { return r.Flag(true, c35Load(gotTrF)) })
-		c.Check("rfc", kt+"no-duplicate-trailers", h2bPos(ifi), ifi != nil && c35RejectsWithError(rej), "a second trailers block on the same stream is not rejected")
-		isPseudoLen := c35IsLen(func(v ssa.Value) bool { _, ok := h2bIsCall(v, "MetaHeadersFrame.PseudoFields"); return ok })
-		ifi, rej = c35Reject(fn, func(r h2bRel) bool {
-			return r.Cmp(token.GTR, isPseudoLen, h2bIsInt(0)) || r.Cmp(token.NEQ, isPseudoLen, h2bIsInt(0))
+		treg := e.region(fn)
+		isEnded := func(v ssa.Value) bool { _, ok := h2bIsCall(e.rep(v), "HeadersFrame.StreamEnded"); return ok }
+		ifi, ok := rejects(treg, func(r h2bRel) bool { return r.Flag(false, isEnded) })
+		c.Check("rfc", kt+"end-stream-required", h2bPos(ifi), ok, "trailers without END_STREAM are not rejected (RFC 7540 8.1)")
+		ifi, ok = rejects(treg, func(r h2bRel) bool { return r.Flag(true, load(gotTrF)) })
+		c.Check("rfc", kt+"no-duplicate-trailers", h2bPos(ifi), ok, "a second trailers block on the same stream is not rejected")
+		isPseudoLen := c35IsLen(func(v ssa.Value) bool { _, ok := h2bIsCall(e.rep(v), "MetaHeadersFrame.PseudoFields"); return ok })
+		ifi, ok = rejects(treg, func(r h2bRel) bool {
+			return r.Cmp(token.GTR, isPseudoLen, h2bIsInt(0)) || r.Cmp(token.NEQ, isPseudoLen, h2bIsInt(0)) || r.Cmp(token.GEQ, isPseudoLen, h2bIsInt(1))
 		})
-		c.Check("rfc", kt+"no-pseudo-headers", h2bPos(ifi), ifi != nil && c35RejectsWithError(rej), "pseudo-header fields in trailers are not rejected (RFC 7540 8.1.2.1)")
-		for _, call := range core.Calls(fn, h2bName("stream.endStream")) {
+		c.Check("rfc", kt+"no-pseudo-headers", h2bPos(ifi), ok, "pseudo-header fields in trailers are not rejected (RFC 7540 8.1.2.1)")
+		for _, call := range treg.calls("stream.endStream") {
 			in := call.(ssa.Instruction)
-			c.Check("rfc", kt+"ends-only-with-flag", in.Pos(), h2bGuarded(in.Block(), func(r h2bRel) bool { return r.Flag(true, isEnded) }), "trailers end the request body without END_STREAM having been seen")
+			c.Check("rfc", kt+"ends-only-with-flag", in.Pos(), e.guarded(in.Block(), func(r h2bRel) bool { return r.Flag(true, isEnded) }), "trailers end the request body without END_STREAM having been seen")
 		}
 	}
 
 	// DATA
 	if fn := e.fn("serverConn.processData"); fn != nil {
 		const kd = "serverConn.processData:"
+		dreg := e.region(fn)
 		n := 0
-		for _, call := range core.AllCalls(fn) {
-			if !strings.HasSuffix(core.CalleeKey(call.Common()), "pipe.Pipe.Write") {
+		for _, in := range dreg.all() {
+			call, isCall := in.(ssa.CallInstruction)
+			if !isCall || !strings.HasSuffix(core.CalleeKey(call.Common()), "pipe.Pipe.Write") {
 				continue
 			}
 			n++
-			in := call.(ssa.Instruction)
 			var st ssa.Value
-			okReg := h2bGuarded(in.Block(), func(r h2bRel) bool {
+			okReg := e.guarded(in.Block(), func(r h2bRel) bool {
 				return r.Flag(true, func(v ssa.Value) bool {
-					ex, ok := v.(*ssa.Extract)
+					ex, ok := e.rep(v).(*ssa.Extract)
 					if !ok || ex.Index != 1 {
 						return false
 					}
@@ -1415,25 +1488,33 @@ func c35RFC(c *core.Ctx, e *h2bEnv) {
 					return false
 				})
 			})
-			okOpen := st != nil && h2bGuarded(in.Block(), func(r h2bRel) bool { return r.Cmp(token.EQL, c35LoadOn(stateF, st), h2bIsInt(1)) })
-			okTr := st != nil && h2bGuarded(in.Block(), func(r h2bRel) bool { return r.Flag(false, c35LoadOn(gotTrF, st)) })
+			isOpen := func(r h2bRel) bool { return r.Cmp(token.EQL, e.fieldLoadOn(stateF, st), h2bIsInt(1)) }
+			okOpen := st != nil && e.guarded(in.Block(), isOpen)
+			okTr := st != nil && e.guarded(in.Block(), func(r h2bRel) bool { return r.Flag(false, e.fieldLoadOn(gotTrF, st)) })
 			c.Check("rfc", kd+"body-write:registered", in.Pos(), okReg, "DATA payload is written to a body although the stream was not found in sc.streams")
-			c.Check("rfc", kd+"body-write:state-open", in.Pos(), okOpen, "DATA payload is accepted for a stream not known to be in state open (RFC 7540 5.1: STREAM_CLOSED for half-closed(remote)/closed); guards: "+h2bGuardList(in.Block()))
+			c.Check("rfc", kd+"body-write:state-open", in.Pos(), okOpen, "DATA payload is accepted for a stream not known to be in state open (RFC 7540 5.1: STREAM_CLOSED for half-closed(remote)/closed); guards: "+e.guardList(in.Block()))
 			c.Check("rfc", kd+"body-write:before-trailers", in.Pos(), okTr, "DATA payload is accepted after the stream's trailers")
+			// the rejecting side returns an error: the branch that established
+			// `state == open` for the write leads only to error returns on its other side
+			okRej := false
+			var dec *ssa.If
+			if okOpen {
+				dec, okRej = enforced(in, isOpen)
+			}
+			c.Check("rfc", kd+"not-open-rejected", h2bPos(dec), okRej, "DATA on a stream that is not open does not lead to an error return")
 		}
 		if n == 0 {
 			c.Check("rfc", kd+"body-write:registered", fn.Pos(), false, "processData no longer writes the payload to the stream's body pipe")
 		}
-		// the rejecting side returns an error
-		ifi, rej := c35Reject(fn, func(r h2bRel) bool { return r.Cmp(token.NEQ, c35Load(stateF), h2bIsInt(1)) })
-		c.Check("rfc", kd+"not-open-rejected", h2bPos(ifi), ifi != nil && c35RejectsWithError(rej), "DATA on a stream that is not open does not lead to an error return")
 	}
 
 	// request pseudo-headers
 	if fn := e.fn("serverConn.newWriterAndRequest"); fn != nil {
 		const kn = "serverConn.newWriterAndRequest:"
+		nreg := e.region(fn)
 		pseudo := func(name string) func(ssa.Value) bool {
 			return func(v ssa.Value) bool {
+				v = e.rep(v)
 				call, ok := h2bIsCall(v, "MetaHeadersFrame.PseudoValue")
 				if !ok {
 					// `authority` may have been re-assigned from the Host header (phi)
@@ -1454,7 +1535,7 @@ func c35RFC(c *core.Ctx, e *h2bEnv) {
 			name string
 			m    func(r h2bRel) bool
 		}
-		isEnded := func(v ssa.Value) bool { _, ok := h2bIsCall(v, "HeadersFrame.StreamEnded"); return ok }
+		isEnded := func(v ssa.Value) bool { _, ok := h2bIsCall(e.rep(v), "HeadersFrame.StreamEnded"); return ok }
 		needs := []need{
 			{"method-required", func(r h2bRel) bool { return r.Cmp(token.EQL, pseudo("method"), empty) }},
 			{"path-required", func(r h2bRel) bool { return r.Cmp(token.EQL, pseudo("path"), empty) }},
@@ -1466,13 +1547,15 @@ func c35RFC(c *core.Ctx, e *h2bEnv) {
 		}
 		for _, nd := range needs {
 			found := false
-			for _, r := range core.Returns(fn) {
-				if !c35NonNilErr(c35ErrResult(r)) {
-					continue
-				}
-				// one of the ways into the rejecting block establishes the fact
-				if h2bSomeEdge(r.Block(), nd.m) {
-					found = true
+			for _, f := range nreg.fns {
+				for _, r := range core.Returns(f) {
+					if !c35NonNilErr(c35ErrResult(r)) {
+						continue
+					}
+					// one of the ways into the rejecting block establishes the fact
+					if e.someEdge(r.Block(), nd.m) {
+						found = true
+					}
 				}
 			}
 			c.Check("rfc", kn+nd.name, fn.Pos(), found, "newWriterAndRequest has no error return established by the test `"+nd.name+"` on the request pseudo-header fields (RFC 7540 8.1.2.3 / 8.3)")
@@ -1520,7 +1603,7 @@ func c35RFC(c *core.Ctx, e *h2bEnv) {
 				if !c35NonNilErr(c35ErrResult(r)) {
 					continue
 				}
-				if h2bGuarded(r.Block(), func(rel h2bRel) bool {
+				if e.guarded(r.Block(), func(rel h2bRel) bool {
 					return rel.Flag(true, func(v ssa.Value) bool {
 						ex, ok := v.(*ssa.Extract)
 						if !ok || ex.Index != 1 {
@@ -1579,7 +1662,7 @@ func c35RFC(c *core.Ctx, e *h2bEnv) {
 				continue
 			}
 			n++
-			ok := h2bGuarded(r.Block(), func(rel h2bRel) bool {
+			ok := e.guarded(r.Block(), func(rel h2bRel) bool {
 				return rel.Cmp(token.EQL, func(v ssa.Value) bool { _, is := h2bIsCall(v, "MetaHeadersFrame.checkPseudos"); return is }, h2bNilV)
 			})
 			c.Check("rfc", fmt.Sprintf("Framer.readMetaFrame:pseudo-validated#%d", n), r.Pos(), ok, "readMetaFrame delivers a MetaHeadersFrame without checkPseudos() having succeeded (unknown/duplicate/mixed pseudo-header fields reach the server)")
@@ -1708,7 +1791,7 @@ func c35OpenCount(c *core.Ctx, e *h2bEnv) {
 	if streamsF == nil || curF == nil {
 		return
 	}
-	isStreams := c35Load(streamsF)
+	isStreams := func(v ssa.Value) bool { return c35Load(streamsF)(e.rep(v)) }
 	step := func(in ssa.Instruction, op token.Token) bool {
 		st, ok := in.(*ssa.Store)
 		if !ok {
@@ -1718,7 +1801,7 @@ func c35OpenCount(c *core.Ctx, e *h2bEnv) {
 			return false
 		}
 		b, isB := st.Val.(*ssa.BinOp)
-		if !isB || b.Op != op || !c35Load(curF)(b.X) {
+		if !isB || b.Op != op || !c35Load(curF)(e.rep(b.X)) {
 			return false
 		}
 		k, isK := h2bInt(b.Y)
@@ -1739,16 +1822,19 @@ func c35OpenCount(c *core.Ctx, e *h2bEnv) {
 		return ok && isStreams(mu.Map)
 	}
 	// paired: every execution of `at` is accompanied by a partner, either
-	// before it on every path (dominance) or after it on every path to a return.
-	paired := func(fn *ssa.Function, at ssa.Instruction, partner func(ssa.Instruction) bool) (bool, ssa.Instruction) {
-		for _, in := range h2bAll(fn) {
-			if partner(in) && core.Dominates(in, at) {
+	// before it on every path (dominance) or after it on every path to a return
+	// of the function the code belongs to (the anchor when `at` lies in one of
+	// its private helpers).
+	paired := func(reg *h2bReg, at ssa.Instruction, partner func(ssa.Instruction) bool) (bool, ssa.Instruction) {
+		for _, in := range reg.all() {
+			if partner(in) && reg.dominates(in, at) {
 				return true, nil
 			}
 		}
-		bad := core.MustPass(fn, at, partner)
+		bad := reg.mustPass(at, partner)
 		return bad == nil, bad
 	}
+	anchors := []*ssa.Function{e.c.P.Func(h2bPkg, "serverConn.processHeaders"), e.c.P.Func(h2bPkg, "serverConn.closeStream")}
 	cnt := map[string]int{}
 	for _, fn := range e.fns {
 		for _, in := range h2bAll(fn) {
@@ -1766,12 +1852,13 @@ func c35OpenCount(c *core.Ctx, e *h2bEnv) {
 			default:
 				continue
 			}
-			k := h2bShort(fn) + ":" + kind
+			home := e.home(fn, anchors...)
+			k := h2bShort(home) + ":" + kind
 			cnt[k]++
 			if cnt[k] > 1 {
 				k += fmt.Sprintf("#%d", cnt[k])
 			}
-			ok, bad := paired(fn, in, partner)
+			ok, bad := paired(e.region(home), in, partner)
 			if bad != nil {
 				what += "; unpaired exit at " + c.P.Pos(h2bPos(bad))
 			}
